@@ -11,6 +11,18 @@ NOTE_COMMON = ("Theorems are about a hand-written Lean model; the model is tied 
                "float rounding measured not proved. Axioms: propext, Classical.choice, Quot.sound only.")
 
 CLAIMS = {
+ "C07": dict(
+   text="Partial proof (Lean 4) about the code-shaped model of get_GCC_without_pockets (explicit row indices, exit-index search, "
+        "flatten range, i += n_added*sgn, Python loop bound as fuel) and of get_seperated_gcc_heat_load_profiles: gcc_unchanged — "
+        "for every curve, whatever its pockets, if pocket removal returns then H_net (any interpolated column but H_net_np) is the "
+        "same polyline at every rational temperature (induction over the sweep's fuel, through C08.curves_preserved at every "
+        "inserted closing temperature); profiles_monotone, profiles_ends. NOT proved: that H_net_np equals the running minimum of "
+        "the GCC and that breakpoints appear exactly at pocket closings — these clauses are decided by an exact Fraction oracle "
+        "applied to the implementation's output at every row and interval midpoint of 1500+ random curves per run (0-6 pockets per "
+        "side, nested, closing on a row, adjacent to the pinch, threshold, two pinches) and by the correspondence on T/H/H_np and "
+        "both profiles (1500/1500 agree).",
+   technique="Lean 4 proof (fuel induction over the code-shaped sweep, partial) + exact running-minimum oracle + correspondence testing",
+   design="§6 C07"),
  "C05": dict(
    text="Proof (Lean 4): curves_are_content — on any compatible grid and for any streams, on either scale, every row of the "
         "cascade's table has H_hot = exact heat content of the hot streams below the row temperature, H_cold = cold content "
